@@ -2693,6 +2693,207 @@ fn emit_key_cases(sink: &mut Sink, meta: &mut Meta, tera: &Tera, rng: &mut Rng, 
     sink.count - before
 }
 
+
+// ------------------------------------------------------------------ (J) and/or nested inside a non-logical wrapper
+
+/// Implementation-side oracle for the statement forms (their jump patching differs from `{{ }}`):
+/// `{% if e %}` / `{% elif e %}` take the branch exactly when the value e evaluates to is truthy,
+/// and fail exactly when e fails.
+fn if_form_oracle(meta: &mut Meta, tera: &Tera, text: &str, env: &[(String, Value)], probed: &Outcome<Value>, shape: &str) {
+    let ctx = context_of(env);
+    let forms = [
+        format!("{{% if {text} %}}1{{% else %}}0{{% endif %}}"),
+        format!("{{% if false %}}x{{% elif {text} %}}1{{% else %}}0{{% endif %}}"),
+        format!("{{% if {text} %}}{{% if true %}}1{{% endif %}}{{% elif true %}}0{{% endif %}}"),
+    ];
+    for src in forms {
+        let got = guarded(|| tera.render_str(&src, &ctx, false));
+        meta.oracle_checks += 1;
+        let ok = match (probed, &got) {
+            (Outcome::Panic(_), _) => true,
+            (Outcome::Ok(v), Outcome::Ok(t)) => t == if v.is_truthy() { "1" } else { "0" },
+            (Outcome::Err(..), Outcome::Err(..)) => true,
+            _ => false,
+        };
+        if !ok {
+            let g = match &got {
+                Outcome::Ok(t) => json!({"ok": t}),
+                Outcome::Err(c, m) => json!({"err": c, "msg": m}),
+                Outcome::Panic(m) => json!({"panic": m}),
+            };
+            meta.oracle_fail(
+                "`{% if e %}` / `{% elif e %}` does not branch on the truth of the value e evaluates to",
+                None,
+                json!({"template": src, "ctx": json_env(env), "shape": shape, "rendered": g, "value_of_e": probed.json(json_value)}),
+            );
+        }
+    }
+}
+
+fn truth_pool(thorough: bool) -> Vec<(&'static str, Option<Value>)> {
+    let all: Vec<(&'static str, Option<Value>)> = vec![
+        ("false", Some(Value::from(false))),
+        ("true", Some(Value::from(true))),
+        ("0", Some(vi(0))),
+        ("'s'", Some(Value::from("s"))),
+        ("undef", None),
+        ("1", Some(vi(1))),
+        ("''", Some(Value::from(""))),
+        ("none", Some(Value::none())),
+        ("[]", Some(varr(vec![]))),
+        ("[0]", Some(varr(vec![vi(0)]))),
+    ];
+    if thorough { all } else { all.into_iter().take(5).collect() }
+}
+
+type Wrapper = (&'static str, Box<dyn Fn(Sx) -> Sx>);
+fn wrappers() -> Vec<Wrapper> {
+    fn w(n: &'static str, f: impl Fn(Sx) -> Sx + 'static) -> Wrapper {
+        (n, Box::new(f))
+    }
+    vec![
+        w("not (.)", |e| un(Unop::Not, e)),
+        w("(.) == 1", |e| bin(Bop::Eq, e, cint(1))),
+        w("(.) != 's'", |e| bin(Bop::Ne, e, sstr("s"))),
+        w("(.) | default(value=5)", |e| Sx::Filter(bx(e), "default".into(), vec![("value".into(), cint(5))])),
+        w("(.) is defined", |e| test(e, "defined", false)),
+        w("(.) is string", |e| test(e, "string", false)),
+        w("(.) ~ 's'", |e| bin(Bop::Concat, e, sstr("s"))),
+        w("[.][0]", |e| item(arr(vec![(false, e)]), cint(0))),
+        w("(. if t else 'u')", |e| tern(var("t"), e, sstr("u"))),
+        w("-(.)", |e| un(Unop::Minus, e)),
+    ]
+}
+
+/// same-operator and/or inside a wrapper, in the LEFT and in the RIGHT operand of an outer and/or,
+/// over all assignments of the operands
+fn emit_jump_cases(sink: &mut Sink, meta: &mut Meta, tera: &Tera, rng: &mut Rng, thorough: bool) -> usize {
+    let before = sink.count;
+    let pool = truth_pool(thorough);
+    let rs: Vec<(&'static str, Option<Value>)> = if thorough {
+        vec![("false", Some(Value::from(false))), ("'yes'", Some(Value::from("yes"))), ("true", Some(Value::from(true))), ("undef", None)]
+    } else {
+        vec![("false", Some(Value::from(false))), ("'yes'", Some(Value::from("yes")))]
+    };
+    let zs: Vec<(&'static str, Option<Value>)> = vec![("false", Some(Value::from(false))), ("'z'", Some(Value::from("z")))];
+    let ws = wrappers();
+    let mk_env = |vals: &[(&str, &Option<Value>)]| -> Vec<(String, Value)> {
+        let mut env = vec![("t".to_string(), Value::from(true))];
+        for (n, v) in vals {
+            if let Some(v) = v {
+                env.push((n.to_string(), v.clone()));
+            }
+        }
+        env
+    };
+    let run = |e: Sx, env: &[(String, Value)], tag: String, sink: &mut Sink, meta: &mut Meta, rng: &mut Rng| {
+        let text = expr_text(&e, rng);
+        let probed = run_eval(tera, &text, env, false);
+        if_form_oracle(meta, tera, &text, env, &probed, &tag);
+        emit_eval(sink, meta, tera, &e, env, false, &tag, rng);
+    };
+    for (opn, op) in [("and", Bop::And), ("or", Bop::Or)] {
+        for (xn, xv) in &pool {
+            for (yn, yv) in &pool {
+                for (rn, rv) in &rs {
+                    let env = mk_env(&[("x", xv), ("y", yv), ("r", rv)]);
+                    let inner = bin(op, var("x"), var("y"));
+                    for (wn, w) in &ws {
+                        let tag = format!("J:W(X {opn} Y) {opn} R @ {wn} @ x={xn} y={yn} r={rn}");
+                        run(bin(op, w(inner.clone()), var("r")), &env, tag, sink, meta, rng);
+                        let tag = format!("J:R {opn} W(X {opn} Y) @ {wn} @ x={xn} y={yn} r={rn}");
+                        run(bin(op, var("r"), w(inner.clone())), &env, tag, sink, meta, rng);
+                    }
+                    // the ternary-condition form
+                    let tag = format!("J:'a' if not (X {opn} Y) {opn} R else 'b' @ x={xn} y={yn} r={rn}");
+                    run(tern(bin(op, un(Unop::Not, inner.clone()), var("r")), sstr("a"), sstr("b")), &env, tag, sink, meta, rng);
+                }
+            }
+        }
+        // three-operand inner chains
+        let rs3 = &rs[..2];
+        for (xn, xv) in &pool {
+            for (yn, yv) in &pool {
+                for (zn, zv) in &zs {
+                    for (rn, rv) in rs3 {
+                        let env = mk_env(&[("x", xv), ("y", yv), ("z", zv), ("r", rv)]);
+                        let inner = bin(op, bin(op, var("x"), var("y")), var("z"));
+                        for (wi, (wn, w)) in ws.iter().enumerate() {
+                            if !thorough && wi != 0 {
+                                continue;
+                            }
+                            let tag = format!("J:W(X {opn} Y {opn} Z) {opn} R @ {wn} @ x={xn} y={yn} z={zn} r={rn}");
+                            run(bin(op, w(inner.clone()), var("r")), &env, tag, sink, meta, rng);
+                        }
+                    }
+                }
+            }
+        }
+    }
+    sink.count - before
+}
+
+// ------------------------------------------------------------------ (F) float x integer comparisons at every integer boundary
+
+fn int_value(z: i128, big: Option<u128>) -> Value {
+    if let Some(u) = big {
+        return if let Ok(x) = u64::try_from(u) { Value::from(x) } else { Value::from(u) };
+    }
+    if let Ok(x) = i64::try_from(z) { Value::from(x) } else { Value::from(z) }
+}
+
+fn emit_float_int_cases(sink: &mut Sink, meta: &mut Meta, tera: &Tera, rng: &mut Rng) -> usize {
+    let before = sink.count;
+    // (integers around the boundary, the float at the boundary)
+    let mut bounds: Vec<(Vec<Value>, f64)> = Vec::new();
+    for n in -3i128..=3 {
+        bounds.push((vec![int_value(n - 1, None), int_value(n, None), int_value(n + 1, None)], n as f64));
+    }
+    for n in [1i128 << 53, -(1i128 << 53), i64::MAX as i128, i64::MIN as i128, i128::MAX, i128::MIN] {
+        let mut is = vec![int_value(n, None)];
+        if n > i128::MIN { is.push(int_value(n - 1, None)); }
+        if n < i128::MAX { is.push(int_value(n + 1, None)); }
+        bounds.push((is, n as f64));
+    }
+    bounds.push((vec![int_value(0, Some(u64::MAX as u128)), int_value(0, Some(u64::MAX as u128 + 1)), int_value(0, Some(u64::MAX as u128 - 1))], u64::MAX as f64));
+    bounds.push((vec![int_value(0, Some(u128::MAX)), int_value(0, Some(u128::MAX - 1)), int_value(0, Some(i128::MAX as u128 + 1))], u128::MAX as f64));
+    let ops = [Bop::Lt, Bop::Le, Bop::Gt, Bop::Ge, Bop::Eq, Bop::Ne];
+    let mut items = Vec::new();
+    for o in ops {
+        items.push((false, bin(o, var("f"), var("i"))));
+        items.push((false, bin(o, var("i"), var("f"))));
+    }
+    let e = arr(items);
+    for (ints, fb) in bounds {
+        let up = f64::from_bits(if fb > 0.0 { fb.to_bits() + 1 } else if fb < 0.0 { fb.to_bits() - 1 } else { 1 });
+        let down = if fb > 0.0 { f64::from_bits(fb.to_bits() - 1) } else if fb < 0.0 { f64::from_bits(fb.to_bits() + 1) } else { -f64::from_bits(1) };
+        let mut fs = vec![fb, up, down, fb + 0.5, fb - 0.5, fb + 0.25, fb - 0.75];
+        if fb == 0.0 {
+            fs.push(-0.0);
+        }
+        for f in fs {
+            for i in &ints {
+                let env = vec![("f".to_string(), Value::from(f)), ("i".to_string(), i.clone())];
+                let tag = format!("F:[f op i, i op f | 6 ops] @ f={f:?} @ i={i}");
+                emit_eval(sink, meta, tera, &e, &env, false, &tag, rng);
+            }
+        }
+    }
+    // infinities and the single comparisons through a ternary / and-or (the value is used as a condition)
+    for f in [f64::INFINITY, f64::NEG_INFINITY] {
+        for i in [int_value(0, None), int_value(i128::MAX, None), int_value(i128::MIN, None), int_value(0, Some(u128::MAX))] {
+            let env = vec![("f".to_string(), Value::from(f)), ("i".to_string(), i.clone())];
+            emit_eval(sink, meta, tera, &e, &env, false, &format!("F:[..] @ f={f:?} @ i={i}"), rng);
+        }
+    }
+    for (f, i) in [(-2.5f64, -2i64), (-0.5, 0), (2.5, 2), (-2.5, -3), (0.5, 0), (-1.0e-300, 0)] {
+        let env = vec![("f".to_string(), Value::from(f)), ("i".to_string(), Value::from(i))];
+        let e2 = tern(bin(Bop::Lt, var("f"), var("i")), sstr("lt"), tern(bin(Bop::Gt, var("f"), var("i")), sstr("gt"), sstr("eq")));
+        emit_eval(sink, meta, tera, &e2, &env, false, &format!("F:three-way @ f={f:?} @ i={i}"), rng);
+    }
+    sink.count - before
+}
+
 /// oracles on the engine alone: short-circuit of and / or / ternary, one level of undefined
 fn eval_oracles(tera: &Tera, meta: &mut Meta) {
     let check = |meta: &mut Meta, what: &str, text: &str, env: &[(String, Value)], print: bool, ok: &dyn Fn(&Outcome<Value>) -> bool| {
@@ -2906,6 +3107,11 @@ fn main() {
     // (K) maps / arrays subscripted and probed with computed keys
     let eval_key_cases = emit_key_cases(&mut eval, &mut meta, &tera, &mut rng, thorough);
     meta.extra.insert("eval_key_cases".into(), json!(eval_key_cases));
+    // (J) same-operator and/or inside non-logical wrappers; (F) float x integer comparisons
+    let eval_jump_cases = emit_jump_cases(&mut eval, &mut meta, &tera, &mut rng, thorough);
+    meta.extra.insert("eval_jump_cases".into(), json!(eval_jump_cases));
+    let eval_float_int_cases = emit_float_int_cases(&mut eval, &mut meta, &tera, &mut rng);
+    meta.extra.insert("eval_float_int_cases".into(), json!(eval_float_int_cases));
     let eval_systematic = eval.count;
     // (R) random
     let vpool = value_pool();
